@@ -74,7 +74,7 @@ def items(tier):
     # planning phase: every line from the entry of the run command on, the exception being whatever the process's CURRENT SIGINT
     # disposition raises (Conductor's handler must already be installed)
     for i, c in enumerate(scenarios(tier)):
-        if c.get("git") or c.get("with_include") or len(c["g"]) == 2:
+        if c.get("with_include") or (tier == "thorough" and (c.get("git") or len(c["g"]) == 2)):
             out.append({"kind": "planning", "case": c, "scn_index": i})
     # third family: the signal is taken by whatever disposition the process has at that moment - for every disposition `cond` can
     # inherit from its launcher (default, ignored: `cmd &` in a non-interactive shell, nohup-like wrappers), for both signals,
